@@ -225,6 +225,7 @@ func checkC16(p *Prog, res *Result, tier string) {
 	res.rule("C16-R8", "the backend conditions behind the transaction shapes hold (C01-R3/R4/R7) and engine faults are not turned into answers by the metrics wrapper (C11-R5)", 10)
 	res.rule("C16-R6", "a Range answer is the backend's complete snapshot read: no key missing, duplicated or out of order because of partitioning or a retried scan (C13-R5/R6/R8)", 5)
 	res.rule("C16-R9", "a Range answer names the revision its data was read at: header and default read revision derive from one load of the committed revision taken before the scan (C06-R2), and the etcd translation hands the backend's header on", 6)
+	res.rule("C16-R10", "a watch starts exactly at the revision it names or is refused (so that the client re-lists): the resume revision derives from the request or the cache snapshot, and the empty-cache start uses the strict comparison (C05-R1/R10)", 4)
 	res.rule("C16-R5", "the failure branch of update/delete answers with the key-value read after the failed write", 2)
 
 	txnM := p.ifaceMethod("go.etcd.io/etcd/api/v3/etcdserverpb", "KVServer", "Txn")
@@ -562,6 +563,12 @@ func checkC16(p *Prog, res *Result, tier string) {
 		}
 	}
 	checkShimHeaders(p, lr, res, "C16-R9")
+	// ---- R10: a watch that cannot be served from its start revision is refused, not started past an event (C05-R10) ----
+	for _, o := range p.subResult("C05", tier).Obls {
+		if o.Rule == "C05-R10" || o.Rule == "C05-R1" {
+			res.add("C16-R10", o.Rule+" "+o.Construct, o.Status, o.Pos, o.Detail)
+		}
+	}
 	// ---- R6: the Range answer is the complete snapshot (C13-R5/R6/R8) ----
 	sub13 := p.subResult("C13", tier)
 	for _, o := range sub13.Obls {
